@@ -122,7 +122,7 @@ OBLIGATIONS = [
     native("n_c11_poly", ["C11"], "C11.poly", "Polygon::area / Polygon::perimeter", RN + "n_c11_poly"),
     native("n_c11_poly_large", ["C11"], "C11.poly.large", "Polygon::area / Polygon::perimeter", RN + "n_c11_poly_large"),
     native("n_c11_height_net", ["C11", "C09"], "C11.height_net", "Space::height_net / EnergyProps::from (vol_env_net)", RN + "n_c11_height_net"),
-    native("n_c11_props_model", ["C11", "C08", "C09"], "C11.props", "EnergyProps::from(&Model) / Model::global_ventilation_rate / Space::area / Space::height_net / Wall::area_net", RN + "n_c11_props_model"),
+    native("n_c11_props_model", ["C11", "C08", "C09", "C10"], "C11.props", "EnergyProps::from(&Model) / Model::global_ventilation_rate / Space::area / Space::height_net / Wall::area_net", RN + "n_c11_props_model"),
     native("n_c11_scaling", ["C11"], "C11.scaling", "EnergyProps::from(&Model)", RN + "n_c11_scaling"),
     native("n_c15_check", ["C15"], "C15.check", "check(&Model) / EnergyIndicators::compute", RN + "n_c15_check"),
     native("n_c15_made_of", ["C15"], "C15.made_of", "check(&Model) / EnergyIndicators::compute on models whose constructions are themselves incomplete", RN + "n_c15_made_of"),
@@ -176,6 +176,7 @@ OBLIGATIONS = [
     native("n_c17_convert_year", ["C17"], "C17.convert.year", "convert::schedules_from_bdl / day_of_year", CV + "n_c17_convert_year"),
     native("n_c17_convert_week_day", ["C17"], "C17.convert.week", "convert::schedules_from_bdl", CV + "n_c17_convert_week_day"),
     native("n_c14_seed_closed", ["C14"], "C14.seed", "Model::energy_indicators / EnergyIndicators::as_json", RN + "n_c14_seed_closed"),
+    native("n_c14_closed_family", ["C14"], "C14.closed_family", "Model::energy_indicators + EnergyIndicators::as_json / serde load-back on closed models of every size", RN + "n_c14_closed_family"),
     native("n_c14_single_edits", ["C14"], "C14.edit1", "Model::energy_indicators (EnergyProps::from, compute_fshobst, KData, N50Data, QSolJulData, check)", RN + "n_c14_single_edits", crash=True, timeout=300),
     native("n_c14_triple_edits", ["C14"], "C14.edit3", "Model::energy_indicators", RN + "n_c14_triple_edits", crash=True, tier="thorough", timeout_thorough=2400),
     native("n_c14_double_edits", ["C14"], "C14.edit2", "Model::energy_indicators", RN + "n_c14_double_edits", crash=True, timeout=600),
